@@ -842,6 +842,78 @@ theorem C14_cancelled_can_return (s : PConn.State κ) (c : Nat) (cl : Caller κ)
     exact ⟨{ s with callers := s.callers.set c { cl with pc := .abandoned } },
       by simp only [PConn.step, hc, hcan, hpc, if_true], rfl, rfl⟩
 
+/-- **Re-prepared when lost, on connections.** A query whose EXECUTE was answered UNPREPARED with the id of the cached,
+    completed PREPARE of its statement: acting on the answer removes exactly that entry from the cache (`R`), and the
+    retry's lookup then MISSES and publishes a new flight (number `flights.length`) that the caller itself must start
+    (pc `won`) - i.e. the driver prepares again; by `C14_id_belongs` the frame it sends afterwards carries an id
+    returned by a PREPARE of that statement which had not left the cache when it sent the previous frame, and by
+    `C14_waiter_gets_outcome` / `C14_no_caller_stuck` it gets there. (`C14_reprepare` is the same fact about the
+    sequential cache protocol.) -/
+theorem C14_reprepare_conn (s : PConn.State κ) (c f : Nat) (cl : Caller κ) (fl : PConn.Flight κ) (k : κ) (nv : Nat) (id : Id) (n : Nat)
+    (hc : s.callers[c]? = some cl) (hq : cl.batch = false) (hes : cl.entries = [(k, nv)])
+    (hpc : cl.pc = .answered (.unprep id)) (hk : s.cache k = some f) (hf : s.flights[f]? = some fl)
+    (hd : fl.done = true) (ha : fl.ans = some (some (id, n))) :
+    ∃ s1, PConn.step s (.finish c) = some (s1, [Ev.rm k f]) ∧ s1.cache k = none ∧
+      ∃ s2, PConn.step s1 (.lookup c) = some (s2, []) ∧ s2.cache k = some s.flights.length ∧
+        s2.flights.length = s.flights.length + 1 ∧
+        (s2.callers[c]?).map (·.pc) = some (PC.won s.flights.length) := by
+  have hclt : c < s.callers.length := (List.getElem?_eq_some_iff.1 hc).1
+  have hu : unprepKey s cl id = some k := by simp [unprepKey, hq, hes]
+  have hev : evictIfMatch s k id = removeKey s k := by
+    simp [evictIfMatch, hk, hf, hd, ha]
+  have hrm : removeKey s k = ({ s with cache := fun k' => if k' = k then none else s.cache k',
+                                       flights := s.flights.set f { fl with removed := true } }, [Ev.rm k f]) := by
+    simp [removeKey, hk, hf]
+  let s1 : PConn.State κ :=
+    { s with cache := fun k' => if k' = k then none else s.cache k',
+             flights := s.flights.set f { fl with removed := true },
+             callers := s.callers.set c { cl with got := [], pc := .start } }
+  have h1 : PConn.step s (.finish c) = some (s1, [Ev.rm k f]) := by
+    simp only [PConn.step, hc, hpc, hu, hev, hrm, s1]
+  have hc1 : s1.callers[c]? = some { cl with got := [], pc := .start } := by
+    simp [s1, hclt]
+  have hk1 : s1.cache k = none := by simp [s1]
+  refine ⟨s1, h1, hk1, ?_⟩
+  let s2 : PConn.State κ :=
+    { s1 with cache := fun k' => if k' = k then some s1.flights.length else s1.cache k',
+              flights := s1.flights ++ [{ key := k, ans := none, done := false, removed := false, spawned := false }],
+              callers := s1.callers.set c { cl with got := [], pc := .won s1.flights.length } }
+  have hlen : s1.flights.length = s.flights.length := by simp [s1]
+  have h2 : PConn.step s1 (.lookup c) = some (s2, []) := by
+    simp only [PConn.step, hc1, hes, List.length_nil, List.getElem?_cons_zero, hk1, if_true, s2]
+  refine ⟨s2, h2, ?_, ?_, ?_⟩
+  · simp [s2, hlen]
+  · simp [s2, hlen]
+  · have : c < s1.callers.length := by simp [s1, hclt]
+    simp [s2, this, hlen]
+
+
+/-- ... and an UNPREPARED answer carrying ANOTHER id than the cached PREPARE's leaves the entry where it is: nothing is
+    removed and the retry's lookup finds the same flight again. -/
+theorem C14_unprepared_other_id_conn (s : PConn.State κ) (c f : Nat) (cl : Caller κ) (fl : PConn.Flight κ) (k : κ) (nv : Nat) (id id' : Id) (n : Nat)
+    (hc : s.callers[c]? = some cl) (hq : cl.batch = false) (hes : cl.entries = [(k, nv)])
+    (hpc : cl.pc = .answered (.unprep id)) (hk : s.cache k = some f) (hf : s.flights[f]? = some fl)
+    (hd : fl.done = true) (ha : fl.ans = some (some (id', n))) (hne : id ≠ id') :
+    ∃ s1, PConn.step s (.finish c) = some (s1, []) ∧ s1.cache = s.cache ∧ s1.flights = s.flights ∧
+      ∃ s2, PConn.step s1 (.lookup c) = some (s2, []) ∧ s2.cache = s.cache ∧
+        (s2.callers[c]?).map (·.pc) = some (PC.waiting f) := by
+  have hclt : c < s.callers.length := (List.getElem?_eq_some_iff.1 hc).1
+  have hu : unprepKey s cl id = some k := by simp [unprepKey, hq, hes]
+  have hev : evictIfMatch s k id = (s, []) := by
+    simp [evictIfMatch, hk, hf, hd, ha, hne]
+  let s1 : PConn.State κ := { s with callers := s.callers.set c { cl with got := [], pc := .start } }
+  have h1 : PConn.step s (.finish c) = some (s1, []) := by
+    simp only [PConn.step, hc, hpc, hu, hev, s1]
+  have hc1 : s1.callers[c]? = some { cl with got := [], pc := .start } := by simp [s1, hclt]
+  refine ⟨s1, h1, rfl, rfl, ?_⟩
+  let s2 : PConn.State κ := { s1 with callers := s1.callers.set c { cl with got := [], pc := .waiting f } }
+  have hk1 : s1.cache k = some f := hk
+  have h2 : PConn.step s1 (.lookup c) = some (s2, []) := by
+    simp only [PConn.step, hc1, hes, List.length_nil, List.getElem?_cons_zero, hk1, if_true, s2]
+  refine ⟨s2, h2, rfl, ?_⟩
+  have : c < s1.callers.length := by simp [s1, hclt]
+  simp [s2, this]
+
 /-! ### the connection-level machine with the REAL cache (`PLru`: internal/lru instead of a finite map + environment evictions) -/
 
 /-- **Every schedule of the machine with the real LRU cache is a schedule of `PConn`** (the LRU's purges being
